@@ -1,5 +1,6 @@
 use crate::core::Monitor;
 
+pub mod c03;
 pub mod c06;
 pub mod c07;
 pub mod c14;
@@ -8,6 +9,7 @@ pub mod c18;
 
 pub fn get(id: &str) -> Option<Box<dyn Monitor>> {
     match id {
+        "C03" => Some(Box::new(c03::C03)),
         "C06" => Some(Box::new(c06::C06)),
         "C07" => Some(Box::new(c07::C07)),
         "C14" => Some(Box::new(c14::C14)),
